@@ -110,18 +110,18 @@ def stage_r(chk, tier, bindir):
     rnd = random.Random(core.seed())
     q = tier == "quick"
     plans = [
-        {"name": "c01-cap2k2", "cap": 2, "k": 2, "gen_len": 8, "n_sim": 400, "n_rep": 50 if q else 500},
-        {"name": "c01-cap3k3", "cap": 3, "k": 3, "gen_len": 10, "n_sim": 300, "n_rep": 25 if q else 300},
+        {"name": "c01-cap2k2", "cap": 2, "k": 2, "gen_len": 8, "n_sim": 400, "n_rep": 50 if q else 300},
+        {"name": "c01-cap3k3", "cap": 3, "k": 3, "gen_len": 10, "n_sim": 300, "n_rep": 25 if q else 200},
     ]
     if not q:
-        plans.append({"name": "c01-cap1k2", "cap": 1, "k": 2, "gen_len": 8, "n_sim": 300, "n_rep": 200})
-        plans.append({"name": "c01-cap4k2", "cap": 4, "k": 2, "gen_len": 12, "n_sim": 300, "n_rep": 200})
+        plans.append({"name": "c01-cap1k2", "cap": 1, "k": 2, "gen_len": 8, "n_sim": 300, "n_rep": 120})
+        plans.append({"name": "c01-cap4k2", "cap": 4, "k": 2, "gen_len": 12, "n_sim": 300, "n_rep": 120})
     # the same histories on one shard of a 3-shard engine (start-up, shutdown, recovery and fan-out over several
     # shard directories; the shard is not shard 0): contexts are renamed to names the code routes to that shard
     routes = storage.probe_routing(bindir, 3)
     target = max((sh for sh in routes if len(routes[sh]) >= 2), key=lambda sh: (sh != 0, len(routes[sh])))
     names = dict(zip(CTXS, routes[target][:2]))
-    plans.append({"name": "c01-cap2k2-shard%dof3" % target, "cap": 2, "k": 2, "gen_len": 8, "n_sim": 300, "n_rep": 20 if q else 200,
+    plans.append({"name": "c01-cap2k2-shard%dof3" % target, "cap": 2, "k": 2, "gen_len": 8, "n_sim": 300, "n_rep": 20 if q else 120,
                   "run": {"shards": 3, "shard": target, "ctx_names": names}})
     stats = storage.campaign(chk, "C01", plans, TYPES, CTXS, bindir, judge, rnd)
     chk.cov["evaluations"] = stats["points"]
